@@ -51,20 +51,21 @@ const (
 )
 
 type thread struct {
-	ph      phase
-	k       int
-	md      string
-	status  tStatus
-	probed  bool // `probe blocked` already logged for the current call
-	ctx     context.Context
-	cancel  context.CancelFunc
-	lockErr bool
-	rctx    context.Context    // OuterCancel reader context
-	unlock  context.CancelFunc // OuterCancel unlock / release func
-	inside  bool               // OuterCancel: reader between RLock return and release start
-	enterAt time.Duration
-	firstW  time.Duration // OuterCancel: call time of the first writer that had to wait for this reader
-	toldAt  time.Duration // OuterCancel: when the reader's context was first seen cancelled with the configured cause
+	ph        phase
+	k         int
+	md        string
+	status    tStatus
+	probed    bool // `probe blocked` already logged for the current call
+	ctx       context.Context
+	cancel    context.CancelFunc
+	lockErr   bool
+	rctx      context.Context    // OuterCancel reader context
+	unlock    context.CancelFunc // OuterCancel unlock / release func
+	inside    bool               // OuterCancel: reader between RLock return and release start
+	enterAt   time.Duration
+	firstW    time.Duration // OuterCancel: call time of the first writer that had to wait for this reader
+	justified bool          // OuterCancel: a writer was granted while this reader was inside
+	toldAt    time.Duration // OuterCancel: when the reader's context was first seen cancelled with the configured cause
 }
 
 type violation struct {
